@@ -75,6 +75,7 @@ inductive Val where
   | obj (kvs : List (Bytes × Val))
   | dv (d : DV)                      -- makeDecodeValue(d, decodeValueValue)
   | ext (name : Bytes)               -- the value of an `_`-prefixed extra key (outside the model)
+  | garr (xs : List JV)              -- a bare gojqx.Array (what gojqx.Array.JQValueSlice returns)
 deriving Repr, Inhabited
 
 inductive Err where
@@ -298,6 +299,7 @@ def G.sliceLen : G → Outcome Val
   | .str rs => .ok (.int rs.length)
   | .arr xs => .ok (.int xs.length)
   | .lazy bs => .ok (.int (decodeRunes bs).length)
+  | .null => .ok .null       -- types.go Null.JQValueSliceLen returns nil (fix "index and slice of a decode value null should be null")
   | _ => .err .expectedArray
 
 def strIndex (rs : List Nat) (i : Int) : Outcome Val :=
@@ -330,7 +332,7 @@ def G.slice (g : G) (s e : Int) : Outcome Val :=
   match g with
   | .arr xs =>
     match goSlice xs s e with
-    | .ok r => .ok (.arr (Val.ofJVs r))
+    | .ok r => .ok (.garr r)            -- `v[start:end]` is still a gojqx.Array
     | .err e => .err e
     | .panic w => .panic w
   | .str rs => strSlice rs s e
@@ -354,17 +356,35 @@ def G.keys : G → Outcome Val
   | .obj kvs => .ok (.arr (kvs.map (fun kv => Val.str kv.1)))           -- Go map order: unspecified!
   | _ => .err (.funcType "keys")
 
-/-- JQValueHas(key any). `key.(int)`: only a Go int qualifies, not float64 / *big.Int -/
+/-- func.go:2303-2347 toInt / floatToInt clamp -/
+def clampGoInt (i : Int) : Int := if i < minInt then minInt else if i > maxInt then maxInt else i
+
+def fl (b : UInt64) : Float := Float.ofBits b
+
+def floatToInt (f : Float) : Int :=
+  if f.isNaN then minInt            -- int(NaN) on amd64
+  else if Float.ofInt minInt ≤ f && f ≤ Float.ofInt maxInt then clampGoInt f.toInt64.toInt
+  else if f > 0 then maxInt else minInt
+
+/-- gojqx.ArrayHasKeyToInt (types.go:254-281, the fix "has on a decode value array only accepted
+    integer keys") = gojq's toInt: any number, floats truncated, clamped to the Go int range -/
+def toGoInt : Val → Option Int
+  | .int i => some (clampGoInt i)
+  | .float f => some (floatToInt (fl f))
+  | _ => none
+
+/-- JQValueHas(key any) -/
 def G.has (g : G) (key : Val) : Outcome Val :=
   match g with
   | .arr xs =>
-    match key with
-    | .int i => if isGoInt i then .ok (.bool (decide (0 ≤ i) && decide (i < xs.length))) else .err .hasKeyType
-    | _ => .err .hasKeyType
+    match toGoInt key with
+    | some i => .ok (.bool (decide (0 ≤ i) && decide (i < xs.length)))
+    | none => .err .hasKeyType
   | .obj kvs =>
     match key with
     | .str k => .ok (.bool (objHas k kvs))
     | _ => .err .hasKeyType
+  | .null => .ok (.bool false)      -- types.go Null.JQValueHas (fix "has on a decode value null should be false")
   | _ => .err (.funcType "has")
 
 def G.type : G → String
@@ -532,9 +552,9 @@ def DV.mHas (d : DV) (key : Val) : Outcome Val :=
       | .str k => .ok (.bool (fieldGet k fs).isSome)
       | _ => .err .hasKeyType)
   | .array es =>
-    valueOrFallbackHas key (match key with
-      | .int i => if isGoInt i then .ok (.bool (decide (0 ≤ i) && decide (i < es.length))) else .err .hasKeyType
-      | _ => .err .hasKeyType)
+    valueOrFallbackHas key (match toGoInt key with
+      | some i => .ok (.bool (decide (0 ≤ i) && decide (i < es.length)))
+      | none => .err .hasKeyType)
   | .scalar k sym _ => valueOrFallbackHas key ((wrapScalar k sym).has key)
 
 def DV.mType : DV → String
@@ -605,6 +625,7 @@ def Val.deep : Val → JV
   | .obj kvs => .obj (Val.deepKvs kvs)
   | .dv d => d.goJQ
   | .ext _ => .null
+  | .garr xs => .arr xs
 def Val.deepList : List Val → List JV
   | [] => []
   | x :: xs => Val.deep x :: Val.deepList xs
@@ -625,6 +646,7 @@ def Val.toValue : Val → JV
   | .obj kvs => .obj (Val.toValueKvs kvs)
   | .dv d => d.toValue
   | .ext _ => .null
+  | .garr xs => .arr xs
 def Val.toValueList : List Val → List JV
   | [] => []
   | x :: xs => Val.toValue x :: Val.toValueList xs
@@ -636,6 +658,7 @@ end
 /-- one level of JQValueToGoJQ (what binopTypeSwitch, toArray, toString, … do first) -/
 def Val.shallow : Val → Val
   | .dv d => d.mToGoJQ
+  | .garr xs => .arr (Val.ofJVs xs)
   | v => v
 
 /-! ### structural equality / order of plain values (gojq compare.go) -/
@@ -655,8 +678,6 @@ def cmpInt (a b : Int) : Int := if a < b then -1 else if a = b then 0 else 1
 def cmpBytes (a b : Bytes) : Int := if bytesLt a b then -1 else if bytesEq a b then 0 else 1
 /-- compare.go:13-22 -/
 def cmpFloat (l r : Float) : Int := if l < r || l.isNaN then -1 else if l == r then 0 else 1
-def fl (b : UInt64) : Float := Float.ofBits b
-
 mutual
 /-- gojq.Compare on plain values -/
 def JV.cmp : JV → JV → Int
@@ -778,14 +799,12 @@ end
     observation:
       kStrIdx  an out-of-range index into a decoded string gives "" (plain: null)
       kObjKey  `{(k): v}` accepts a non-string decode value as key (its text)
-      kHasNum  `has(n)` on a decoded array rejects a number that is not a Go int
-      kNullHas `has(k)` on a decoded null is an error (plain gojq: false) -/
+      kMinInt  `length` of a decoded -2^63 is 2^63 (gojq's plain `-v` overflows and stays -2^63) -/
 structure Mode where
   impl : Bool
   kStrIdx : Bool := false
   kObjKey : Bool := false
-  kHasNum : Bool := false
-  kNullHas : Bool := false
+  kMinInt : Bool := false
 deriving Repr, Inhabited, DecidableEq
 
 def Mode.real : Mode := { impl := true }
@@ -795,6 +814,7 @@ def Mode.view (m : Mode) (v : Val) : Val :=
   if m.impl then v else
     match v with
     | .dv d => specView d
+    | .garr xs => .arr (Val.ofJVs xs)
     | w => w
 
 def isDV : Val → Bool
@@ -813,6 +833,7 @@ def Val.deepM (m : Mode) : Val → JV
   | .obj kvs => .obj (objOfList (Val.deepMKvs m kvs))
   | .dv d => if m.impl then d.goJQ else d.specDeep
   | .ext _ => .null
+  | .garr xs => .arr xs
 def Val.deepMList (m : Mode) : List Val → List JV
   | [] => []
   | x :: xs => Val.deepM m x :: Val.deepMList m xs
@@ -829,6 +850,7 @@ def Val.shallowM (m : Mode) (v : Val) : Val :=
     (match (if m.impl then d.mToGoJQ else specView d) with
      | .obj kvs => .obj (objOfList kvs)
      | w => w)
+  | .garr xs => .arr (Val.ofJVs xs)
   | w => w
 
 /-- gojq.Compare on evaluation values: JQValueToGoJQ level by level -/
@@ -840,12 +862,15 @@ def Val.cmpM (m : Mode) (a b : Val) : Int := JV.cmp (a.deepM m) (b.deepM m)
 def funcLength (m : Mode) (v : Val) : Outcome Val :=
   match m.view v with
   | .null => .ok (.int 0)
-  | .int i => .ok (.int (if i ≥ 0 then i else -i))
+  | .int i =>
+    -- func.go:318-322 `return -v` on a Go int: -(-2^63) overflows to -2^63
+    .ok (.int (if i ≥ 0 then i else if i == minInt && !(!m.impl && m.kMinInt && isDV v) then minInt else -i))
   | .float f => .ok (.float (absBits f))
   | .str s => .ok (.int (chunks s).length)
   | .arr xs => .ok (.int xs.length)
   | .obj kvs => .ok (.int kvs.length)
   | .dv d => d.mLength
+  | .garr xs => (G.arr xs).length
   | _ => .err (.funcType "length")
 
 /-- func.go:350-368 (`keys(v)` sorts a map's keys: plain maps are kept sorted here; the view of a
@@ -855,20 +880,8 @@ def funcKeys (m : Mode) (v : Val) : Outcome Val :=
   | .arr xs => .ok (.arr (intsUpTo xs.length))
   | .obj kvs => .ok (.arr (kvs.map (fun kv => Val.str kv.1)))
   | .dv d => d.mKeys
+  | .garr xs => (G.arr xs).keys
   | _ => .err (.funcType "keys")
-
-/-- func.go:2303-2347 toInt / floatToInt / bigToInt clamp -/
-def clampGoInt (i : Int) : Int := if i < minInt then minInt else if i > maxInt then maxInt else i
-
-def floatToInt (f : Float) : Int :=
-  if f.isNaN then minInt            -- int(NaN) on amd64
-  else if Float.ofInt minInt ≤ f && f ≤ Float.ofInt maxInt then clampGoInt f.toInt64.toInt
-  else if f > 0 then maxInt else minInt
-
-def toGoInt : Val → Option Int
-  | .int i => some (clampGoInt i)
-  | .float f => some (floatToInt (fl f))
-  | _ => none
 
 def isStructDV : Val → Bool
   | .dv (.struct _) => true
@@ -878,18 +891,19 @@ def isStructDV : Val → Bool
 def funcHas (m : Mode) (v x : Val) : Outcome Val :=
   match m.view v with
   | .arr xs =>
-    if !m.impl && m.kHasNum && isDV v && !(match x with | .int i => isGoInt i | _ => false) &&
-        (toGoInt (x.shallowM m)).isSome then .err .hasKeyType
-    else match toGoInt (x.shallowM m) with
+    match toGoInt (x.shallowM m) with
     | some i => .ok (.bool (decide (0 ≤ i) && decide (i < xs.length)))
     | none => .err (.funcType "has")
   | .obj kvs => match x with
     | .str k =>
-      -- (D2) on a struct the extra keys are present
-      .ok (.bool (objHas k kvs || (!m.impl && isStructDV v && isExtKey k)))
+      -- (D2) on a decode value that is an object the extra keys are present
+      .ok (.bool (objHas k kvs || (!m.impl && isDV v && isExtKey k)))
     | _ => .err (.funcType "has")
-  | .null => if !m.impl && m.kNullHas && isDV v then .err (.funcType "has") else .ok (.bool false)
+  | .null =>
+    -- (D2) also on a decoded null the extra keys are present (valueOrFallbackHas)
+    .ok (.bool (!m.impl && isDV v && (match x with | .str k => isExtKey k | _ => false)))
   | .dv d => d.mHas x
+  | .garr xs => (G.arr xs).has x
   | _ => .err (.funcType "has")
 
 /-- func.go:1265-1277 -/
@@ -911,6 +925,7 @@ def indexKey (m : Mode) (v : Val) (k : Bytes) : Outcome Val :=
   | .null => .ok .null
   | .obj kvs => .ok ((objGet k kvs).getD .null)
   | .dv d => d.mKey k
+  | .garr xs => (G.arr xs).key k
   | _ => .err .expectedObject
 
 /-- func.go:1076-1104 funcIndex2 with a number -/
@@ -934,6 +949,10 @@ def indexInt (m : Mode) (v : Val) (i0 : Int) : Outcome Val :=
       let j := if j < 0 then -2 else if j ≥ l then -1 else j
       d.mIndex j
     | r => r                        -- `l, ok := lv.(int); if !ok { return lv }`
+  | .garr xs =>
+    let l : Int := xs.length
+    let j := clampIndex i (-1) l
+    (G.arr xs).index (if j < 0 then -2 else if j ≥ l then -1 else j)
   | _ => .err .expectedArray
 
 /-- func.go:1160-1263 funcSlice / slice / sliceString / sliceJQValue; `none` = open end -/
@@ -959,6 +978,7 @@ def funcSlice (m : Mode) (v : Val) (s e : Option Int) : Outcome Val :=
     match d.mSliceLen with
     | .ok (.int l) => let (a, b) := bounds l; d.mSlice a b
     | r => r
+  | .garr xs => let (a, b) := bounds xs.length; (G.arr xs).slice a b
   | _ => .err .expectedArray
 
 /-- execute.go:290-350 opeach: (path, value) pairs -/
@@ -967,6 +987,7 @@ def opEach (m : Mode) (v : Val) : Outcome (List (Val × Val)) :=
   | .arr xs => .ok ((intsUpTo xs.length).zip xs)
   | .obj kvs => .ok (kvs.map (fun kv => (Val.str kv.1, kv.2)))   -- plain maps are kept sorted
   | .dv d => d.mEach
+  | .garr xs => (G.arr xs).each
   | _ => .err .iterator
 
 /-- type.go TypeOf -/
@@ -980,6 +1001,7 @@ def funcType (m : Mode) (v : Val) : Bytes :=
   | .arr _ => ofAscii "array"
   | .obj _ => ofAscii "object"
   | .dv d => ofAscii d.mType
+  | .garr _ => ofAscii "array"
   | .ext _ => ofAscii "ext"
 
 /-- func.go:581-596 -/
@@ -989,6 +1011,7 @@ def funcToNumber (m : Mode) (v : Val) : Outcome Val :=
   | .float f => .ok (.float f)
   | .str s => parseNumber s
   | .dv d => d.mToNumber
+  | .garr xs => (G.arr xs).toNumber
   | _ => .err (.funcType "tonumber")
 
 /-- func.go:902 funcToJSON: the encoder unwraps JQValues with JQValueToGoJQ -/
@@ -1028,6 +1051,7 @@ def funcToEntries (m : Mode) (v : Val) : Outcome Val :=
           | _ => .err (.funcType "to_entries")
       | r => r
     else plain (Val.shallowM m (.dv d))
+  | .garr xs => plain (.arr (Val.ofJVs xs))
   | w => plain w
 
 def isNumber : Val → Bool
@@ -1069,10 +1093,11 @@ def funcSub (m : Mode) (l0 r0 : Val) : Outcome Val :=
     if isNumber a && isNumber b then .ok (.float (toFloat a - toFloat b).toBits)
     else .err (.binop "subtract")
 
-/-- stable insertion sort by Compare (sort.SliceStable) -/
+/-- stable insertion sort by Compare (sort.SliceStable): `x` precedes everything in the list it is
+    inserted into, so it stays before the elements it is equal to -/
 def insertSorted (m : Mode) (x : Val) : List Val → List Val
   | [] => [x]
-  | y :: ys => if Val.cmpM m x y < 0 then x :: y :: ys else y :: insertSorted m x ys
+  | y :: ys => if Val.cmpM m x y ≤ 0 then x :: y :: ys else y :: insertSorted m x ys
 
 def sortVals (m : Mode) : List Val → List Val
   | [] => []
@@ -1105,6 +1130,7 @@ def objectKey (m : Mode) (ff : UInt64 → Option Bytes) (k : Val) : Outcome Byte
     else match specView d with
       | .str s => .ok s
       | _ => .err .objectKey
+  | .garr _ => if m.impl || m.kObjKey then .panic "invalid type: gojqx.FuncTypeNameError" else .err .objectKey
   | _ => .err .objectKey
 
 /-! ### depth (fuel for `..` and `paths`) -/
@@ -1148,6 +1174,7 @@ def Val.depth : Val → Nat
   | .arr xs => Val.depthList xs + 1
   | .obj kvs => Val.depthKvs kvs + 1
   | .dv d => d.depth + 1
+  | .garr xs => JV.depthList xs + 1
   | _ => 1
 def Val.depthList : List Val → Nat
   | [] => 0
@@ -1248,15 +1275,16 @@ def Q.eval (m : Mode) (ff : UInt64 → Option Bytes) : Q → Val → Res
     | some e => { outs := [], err := some e }
     | none => { outs := [.arr r.outs] }
   | .objC kq vq, v =>
-    -- keys are the outer loop, values the inner one
+    -- compiler.go compileObject / execute.go:56-75: for each key (outer loop) the value query runs
+    -- (inner loop); the key is checked only when an object is built, i.e. per value output
     let rk := kq.eval m ff v
     let r := bindRes (fun k =>
-      match objectKey m ff k with
-      | .ok ks =>
-        let rv := vq.eval m ff v
-        { outs := rv.outs.map (fun x => Val.obj [(ks, x)]), err := rv.err }
-      | .err e => { outs := [], err := some (.err e) }
-      | .panic w => { outs := [], err := some (.panic w) }) rk.outs
+      let rv := vq.eval m ff v
+      if rv.outs.isEmpty then { outs := [], err := rv.err }
+      else match objectKey m ff k with
+        | .ok ks => { outs := rv.outs.map (fun x => Val.obj [(ks, x)]), err := rv.err }
+        | .err e => { outs := [], err := some (.err e) }
+        | .panic w => { outs := [], err := some (.panic w) }) rk.outs
     match r.err with
     | some e => { outs := r.outs, err := some e }
     | none => { outs := r.outs, err := rk.err }
@@ -1300,7 +1328,13 @@ def Q.eval (m : Mode) (ff : UInt64 → Option Bytes) : Q → Val → Res
     match ra.err with
     | some e => { outs := t, err := some e }
     | none => if t.isEmpty then b.eval m ff v else { outs := t }
-  | .try q, v => { outs := (q.eval m ff v).outs }
+  | .try q, v =>
+    -- `?` swallows a jq error; a Go panic is not an error value and passes through
+    let r := q.eval m ff v
+    match r.err with
+    | some (.panic w) => { outs := r.outs, err := some (.panic w) }
+    | some (.err (.unmodelled w)) => { outs := r.outs, err := some (.err (.unmodelled w)) }
+    | _ => { outs := r.outs }
 
 /-- the decode value `v` as the interpreter's input -/
 def wrap (v : DV) : Val := .dv v
